@@ -133,7 +133,7 @@ func run(tapeJSON json.RawMessage, res *core.Result) {
 	prev := sim
 	for i := 1; i <= tp.Chain; i++ {
 		realm := fmt.Sprintf("R%d.TEST", i)
-		k := refkdc.New(realm, tp.RunSeed+uint64(i), refkdc.Policy{CopyAddresses: true, OmitStartTime: tp.Policy.OmitStartTime, MaxLifeS: tp.Policy.MaxLifeS})
+		k := refkdc.New(realm, tp.RunSeed+uint64(i), refkdc.Policy{CopyAddresses: true, OmitStartTime: tp.Policy.OmitStartTime, MaxLifeS: tp.Policy.MaxLifeS, LenientAuthCRealm: tp.Policy.LenientAuthCRealm})
 		addr := fmt.Sprintf("10.0.%d.1:88", i)
 		gk.Wire(net, k, []string{addr}, nil)
 		kdcs[realm] = k
@@ -212,6 +212,30 @@ func run(tapeJSON json.RawMessage, res *core.Result) {
 		}
 		return best
 	}
+	// ---- guards against runs that cannot be simulated to their end
+	reqsInOp := 0
+	engine.AbortHook = func(kind, detail string, r *core.Result) {
+		switch kind {
+		case "request-flood":
+			engine.Violate(r, "referral.unbounded", map[string]string{"detail": detail, "config": fmt.Sprintf("chain=%d cycle=%v", tp.Chain, tp.Cycle)})
+		case "task-table-full":
+			// more library goroutines than the scheduler has slots (a run with hundreds of re-logins):
+			// the run ends here; what was judged online stands, the rest is not judged
+			r.Stats["truncated_task_table_full"] = 1
+			r.Class = "truncated"
+		default:
+			r.Verdict, r.Harness = "harness-error", kind+": "+detail
+		}
+	}
+	net.Mangle = func(proto, addr string, req, reply []byte) []byte {
+		if simrt.Cur().ID == 1 {
+			reqsInOp++
+			if reqsInOp > 300 {
+				simrt.Abort("request-flood", fmt.Sprintf("%d KDC requests within one operation", reqsInOp))
+			}
+		}
+		return reply
+	}
 	// ---- the workload
 	recs := make([]opRec, 0, len(tp.Ops))
 	destroyedAt := int64(-1)
@@ -259,6 +283,7 @@ func run(tapeJSON json.RawMessage, res *core.Result) {
 				continue
 			}
 			r.Invoke = simrt.NowNs()
+			reqsInOp = 0
 			simrt.Logf("invoke #%d %s %s", i, op.Op, op.SPN)
 			var e error
 			panicked, frame, msg := engine.Guard(func() {
